@@ -90,7 +90,8 @@ def install_scalar(w, alg):
     """contracts of Goldilocks::add/sub/mul(Element&, const Element&, const Element&): result class = a op b"""
     w.alg = alg; w.contracts_used = set()
     import gv.interp as _ip
-    _ip.FALG[0] = alg
+    from . import autosum
+    _ip.FALG[0] = alg; _ip.AUTOSUM[0] = autosum
     names = {'add': '@_ZN10Goldilocks3addERNS_7ElementERKS0_S3_', 'sub': '@_ZN10Goldilocks3subERNS_7ElementERKS0_S3_', 'mul': '@_ZN10Goldilocks3mulERNS_7ElementERKS0_S3_'}
     def fop(op):
         def h(it, args):
